@@ -70,6 +70,11 @@ C["C19"] = ("model_checking",
   TRUST + "Bounds: shapes (min, max, sigfigs) from the cfg files, <= 4-6 records exhaustively; float-based queries only at ranks whose computation is unambiguous (q = 100 r / total); Mean / StdDev not modelled (DESIGN.md 7).",
   "TLA+ integer model of the histogram + TLC enumeration of call sequences replayed on the code", "DESIGN.md 5 C19")
 
+C["C20"] = ("model_checking",
+  "QueueIter.tla / DequeIter.tla are implementation-shaped specs of the non-destructive iterators (the producer cursor over entries that keep their link after removal, back reset to the sentinel when emptied, the single critical section that checks and waits on nupdates with its helper goroutine; confProducer x direction x blocking with exact next/prev pointers and element.wait) checked exhaustively for list shape, NoPanic, YieldsAreAdded, InOrderNoSkip, NoStuckIter at quiescence, EOF after Close, NoLeak and liveness; BOOLEAN switches re-create the two repaired defects (unlocked window, Signal instead of Broadcast) as expected-violation self-tests.  IterStep (abstract: global add history, an iterator is a position) generates schedules - incl. hold steps at yield points and burst steps - executed on Queue.Producer / Iterator and every Deque iterator / producer variant through three APIs with observation at quiescence; concurrent histories (iterators + adder + remover + closer + canceller) are validated by TLC against IterAbs (IterTrace).",
+  TRUST + "Bounds: <= 3 adds, <= 2 iterators + 1 BlockingAdd in the exhaustive models; one blocking Deque iterator per run; schedules to depth 12, random to 16. Reading: an iterator that overlapped a removal is only judged for no-panic, yields-were-added-and-behind-the-position, returns on Close / cancel (DESIGN.md 0.6).",
+  "TLA+ Impl specs + exhaustive TLC; spec-generated schedules (hold / burst steps) executed at quiescence granularity; TLC trace validation of recorded histories", "DESIGN.md 5 C20")
+
 WIP = "check not built yet (work in progress, see DESIGN.md section 9)"
 
 
